@@ -20,8 +20,10 @@ RULE = ('quoting: every string over {a, space, tab, double quote, backslash} up 
         'implicit ones given to the real post-rules hook msbuild_default, pre-existing and too-new '
         '.bfg_uuid files) driven through the real UuidMap/Solution/Project classes with real files; non-trivial = '
         'history with at least one removal or re-add. Writer histories (real msbuild.writer.write) and system histories (real '
-        'build scripts of command / alias steps with dependencies, configured with --backend=msbuild and regenerated after '
-        'edits): the number of explicit defaults of a run is dealt out in turn over 0..3, given to one default() call or to '
+        'build scripts of command / alias / copy_file steps (output = the source path, below directory=, or an explicit name; '
+        'several copy steps per source; a renamed copy changing its source between runs) with dependencies, configured with '
+        '--backend=msbuild and regenerated after edits; distinct GUIDs and project files, project file carries its GUID and '
+        'its own Copy task, .bfg_uuid = one entry per project):the number of explicit defaults of a run is dealt out in turn over 0..3, given to one default() call or to '
         'one call each; a case = one run, distinct by its script.')
 TRUSTED = ('R model Shell/Msvcrt.v of the documented Microsoft C runtime argv rules (no Windows here): cross-checked each run '
            'against CPython subprocess.list2cmdline (independent writer for the same rules) and against a line-by-line Python '
@@ -931,8 +933,27 @@ MSBUILD_STUB = os.path.join(common.VERIF, 'harness', 'stubs_msbuild', 'msbuild')
 SYS_NAMES = ['lib', 'util', 'app', 'tools/gen', 'docs', 'sub/dir/pack', 'check all']
 
 
-def sys_script(steps, default_calls):
-    """steps: [(name, kind, [dependency names])], kind 'command' | 'alias'; default_calls: [[names]] = one default() call each"""
+# copy_file steps: the MSBuild project of a copy step is named after the step's OUTPUT (copy_file_tasks/<output path>); the
+# output is the source's own path (plain), that path below directory= , or the explicit name
+SYS_COPY_SRC = ['data/x.txt', 'data/y.txt', 'res/icon.bin']
+SYS_COPY_DEST = [('plain', None), ('name', 'out/one.txt'), ('name', 'two.txt'), ('name', 'data/renamed.txt'),
+                 ('directory', 'stage'), ('directory', 'pkg/share')]
+
+
+def copy_output(src, form, arg):
+    if form == 'plain':
+        return src
+    if form == 'name':
+        return arg
+    # directory=: the source path as seen from the directory's parent, below the directory, `..` spelled PAR
+    import posixpath
+    rel = posixpath.relpath(src, posixpath.dirname(arg) or '.')
+    return arg + '/' + '/'.join('PAR' if x == '..' else x for x in rel.split('/'))
+
+
+def sys_script(steps, default_calls, copies=None):
+    """steps: [(name, kind, [dependency names])], kind 'command' | 'alias' | 'copy' (then copies[name] = {src, form, arg,
+    mode} and name is the project name the step must get); default_calls: [[names]] = one default() call each"""
     L = ["project('sol', '1.0')"]
     var = {}
     for i, (name, kind, deps) in enumerate(steps):
@@ -940,6 +961,15 @@ def sys_script(steps, default_calls):
         dl = '[' + ', '.join(var[x] for x in deps) + ']'
         if kind == 'alias':
             L.append("s%d = alias(%r, %s)" % (i, name, dl))
+        elif kind == 'copy':
+            c = copies[name]
+            kw = (", mode=%r" % c['mode'] if c['mode'] != 'copy' else '') + (", extra_deps=%s" % dl if deps else '')
+            if c['form'] == 'name':
+                L.append("s%d = copy_file(%r, %r%s)" % (i, c['arg'], c['src'], kw))
+            elif c['form'] == 'directory':
+                L.append("s%d = copy_file(file=%r, directory=%r%s)" % (i, c['src'], c['arg'], kw))
+            else:
+                L.append("s%d = copy_file(file=%r%s)" % (i, c['src'], kw))
         else:
             L.append("s%d = command(%r, cmd=['echo', %r], extra_deps=%s)" % (i, name, name, dl))
     for call in default_calls:
@@ -949,20 +979,46 @@ def sys_script(steps, default_calls):
 
 def gen_sys_history(rng, h):
     """A configure followed by regenerations of edited scripts.  The number of explicit defaults of a run is dealt out in
-    turn over 0..3 (given to one default() call or to one call each), later steps depend on the first default."""
+    turn over 0..3 (given to one default() call or to one call each), later steps depend on the first default.  Beside the
+    command / alias steps every history has copy_file steps in the three spellings of the output (plain, directory=,
+    explicit name) drawn over a pool of three sources, so that several copy steps share a source; between runs copy steps
+    are added and removed, and a step with an explicit name changes its source while keeping its output."""
     runs = []
-    names = rng.sample(SYS_NAMES, rng.randint(3, 5))
+    names = rng.sample(SYS_NAMES, rng.randint(2, 4))
+    copies = {}          # output path -> {src, form, arg, mode}
+
+    def add_copy(src=None):
+        src = src or rng.choice(SYS_COPY_SRC)
+        form, arg = rng.choice(SYS_COPY_DEST)
+        out = copy_output(src, form, arg)
+        if out not in copies:
+            copies[out] = {'src': src, 'form': form, 'arg': arg, 'mode': rng.choice(['copy', 'copy', 'symlink', 'hardlink'])}
+    first_src = rng.choice(SYS_COPY_SRC)
+    for _ in range(rng.randint(2, 3)):          # two of three histories start with several destinations of one source
+        add_copy(first_src if h % 3 != 2 else None)
     for run_i in range(3):
         if run_i:
             r = rng.random()
-            if r < 0.4 and len(names) > 3:
+            if r < 0.4 and len(names) > 2:
                 victim = rng.choice(names)
                 names = [x for x in names if x != victim]
             elif r < 0.8:
                 extra = [x for x in SYS_NAMES if x not in names]
                 if extra:
                     names = names + [rng.choice(extra)]
+            r = rng.random()
+            renamed = sorted(o for o, c in copies.items() if c['form'] == 'name')
+            if r < 0.45 and renamed:          # same output, another source
+                c = copies[rng.choice(renamed)]
+                c['src'] = rng.choice([x for x in SYS_COPY_SRC if x != c['src']])
+            elif r < 0.65 and len(copies) > 1:
+                del copies[rng.choice(sorted(copies))]
+            else:
+                add_copy(rng.choice(sorted(c['src'] for c in copies.values())) if copies and rng.random() < 0.6 else None)
+        cp = {'copy_file_tasks/' + o: dict(c) for o, c in copies.items()}
         order = [x for x in SYS_NAMES if x in names] if rng.random() < 0.5 else list(names)
+        for nm in cp:          # the copy steps at random places of the script
+            order.insert(rng.randint(0, len(order)), nm)
         ne = min(len(order), (h + run_i) % 4)
         explicit = rng.sample(order, ne)
         steps = []
@@ -970,6 +1026,9 @@ def gen_sys_history(rng, h):
             deps = [x for x in order[:i] if rng.random() < 0.35]
             if explicit and explicit[0] in order[:i] and explicit[0] not in deps and rng.random() < 0.6:
                 deps.append(explicit[0])
+            if name in cp:
+                steps.append((name, 'copy', deps if rng.random() < 0.4 else []))
+                continue
             steps.append((name, 'alias' if deps and rng.random() < 0.25 else 'command', deps))
         if ne >= 2 and rng.random() < 0.5:
             calls = [[x] for x in explicit]
@@ -977,7 +1036,7 @@ def gen_sys_history(rng, h):
             calls = [explicit[:1], explicit[1:]]
         else:
             calls = [explicit] if explicit else []
-        runs.append({'steps': steps, 'default_calls': calls})
+        runs.append({'steps': steps, 'default_calls': calls, 'copies': cp})
     return runs
 
 
@@ -994,7 +1053,10 @@ def sys_history(runs):
         for i, run in enumerate(runs):
             steps = [(n, k, list(dp)) for n, k, dp in run['steps']]
             explicit = [x for call in run['default_calls'] for x in call]
-            project.write_tree(src, {'build.bfg': sys_script(steps, run['default_calls'])})
+            copies = run.get('copies') or {}
+            tree = {'build.bfg': sys_script(steps, run['default_calls'], copies)}
+            tree.update({s: 'contents of %s\n' % s for s in SYS_COPY_SRC})
+            project.write_tree(src, tree)
             if i == 0:
                 rc, out = project.configure(src, build, backend='msbuild', extra_env={'MSBUILD': MSBUILD_STUB})
             else:
@@ -1004,12 +1066,26 @@ def sys_history(runs):
             text = open(os.path.join(build, 'sol.sln')).read()
             su, projs = parse_sln(text)
             entries = [(m.group(2), m.group(3)) for m in map(SLN_PROJECT.match, text.split('\n')) if m]
-            obs.append({'projects': [(n, '%032x' % g, ['%032x' % x for x in dg]) for n, g, dg in projs]})
+            raw = [(n, g) for n, g, _ in projs]
+            # a copy step is recognised by what its project DOES (the destination of the Copy task in its project file), not
+            # by the name the backend chose for the project; from here on it is called copy_file_tasks/<destination>
+            relabel = []
+            for (n, g, dg), (_, rel) in zip(projs, entries):
+                try:
+                    m = re.search(r'<Copy SourceFiles="[^"]*" DestinationFiles="\$\(OutDir\)([^"]*)"', open(os.path.join(build, rel)).read())
+                except OSError:
+                    m = None
+                relabel.append('copy_file_tasks/' + m.group(1).replace('\\', '/') if m else n)
+            projs = [(lb, g, dg) for lb, (_, g, dg) in zip(relabel, projs)]
+            entries = [(lb, rel) for lb, (_, rel) in zip(relabel, entries)]
+            obs.append({'projects': [(n, '%032x' % g, ['%032x' % x for x in dg]) for n, g, dg in projs],
+                        'names_in_sln': [n for n, _ in raw]})
             names = [n for n, _, _ in projs]
             want = [n for n, _, _ in steps]
             if sorted(names) != sorted(want):
                 return ('run %d: the script declares the steps %r (explicit defaults %r), the solution has Project entries for %r'
-                        % (i, want, explicit, names)), obs
+                        ' (copy steps named by the destination in their project file; names in the .sln: %r)'
+                        % (i, want, explicit, names, [n for n, _ in raw])), obs
             guid = {n: g for n, g, _ in projs}
             if len(set(guid.values()) | {su}) != len(projs) + 1:
                 return 'run %d: GUIDs are not unique: %r' % (i, obs[-1]), obs
@@ -1022,6 +1098,29 @@ def sys_history(runs):
             for n, rel in entries:
                 if not os.path.isfile(os.path.join(build, rel)):
                     return 'run %d: project file %r of project %r was not written' % (i, rel, n), obs
+            # distinct projects have distinct project files, and each project file is the one of its own project (GUID) and
+            # step (a copy step's Copy task names its own source and destination)
+            rels = [os.path.normpath(rel) for _, rel in entries]
+            if len(set(rels)) != len(rels):
+                return 'run %d: two projects of the solution share one project file: %r' % (i, entries), obs
+            for n, rel in entries:
+                ptext = open(os.path.join(build, rel)).read()
+                gs = '{%s}' % str(__import__('uuid').UUID(int=guid[n])).upper()
+                if '<ProjectGuid>%s</ProjectGuid>' % gs not in ptext:
+                    return 'run %d: project file %r of project %r does not carry the GUID %s the solution lists' % (i, rel, n, gs), obs
+                if n in copies:
+                    c = copies[n]
+                    m = re.search(r'<Copy SourceFiles="([^"]*)" DestinationFiles="([^"]*)"', ptext)
+                    want_sd = (c['src'].replace('/', '\\'), copy_output(c['src'], c['form'], c['arg']).replace('/', '\\'))
+                    if not m or not m.group(1).endswith(want_sd[0]) or m.group(2) != '$(OutDir)' + want_sd[1]:
+                        return ('run %d: project file %r of the copy step %r -> %r has the Copy task %r' % (
+                            i, rel, c['src'], want_sd[1], m and m.groups())), obs
+            # .bfg_uuid: one entry per project (and one for the solution itself)
+            ufile = read_ufile(os.path.join(build, '.bfg_uuid'))
+            if ufile is None or sorted(k for k, _ in ufile[1]) != sorted([n for n, _ in raw] + ['']) or \
+                    any(v != (su if k == '' else dict(raw)[k]) for k, v in ufile[1]):
+                return 'run %d: .bfg_uuid holds %r, the solution has the projects %r' % (
+                    i, ufile and [(k, '%032x' % v) for k, v in ufile[1]], obs[-1]['projects']), obs
             # command() / alias() steps are never implicit defaults (only link steps are), so only an explicit default moves
             first = explicit[0] if explicit else names[0]
             if names[0] != first:
@@ -1056,15 +1155,22 @@ def stage_sln_system(rep, rng, n_hist):
             ne = sum(len(c) for c in run['default_calls'])
             rep.count('sys:explicit-defaults=%d' % ne)
             rep.count('sys:default-calls=%d' % len(run['default_calls']))
+            cps = run.get('copies') or {}
+            srcs = [c['src'] for c in cps.values()]
+            rep.count('sys:copy-steps', len(cps))
+            if len(set(srcs)) < len(srcs):
+                rep.count('sys:run-with-copy-steps-sharing-a-source')
+            if i and any(n in runs[i - 1]['copies'] and runs[i - 1]['copies'][n]['src'] != c['src'] for n, c in cps.items()):
+                rep.count('sys:copy-step-keeps-output-changes-source')
             rep.case('sys:%r' % (run,), i < len(obs))
         if h < 1:
-            rep.sample({'stage': 'sln_system', 'script': sys_script(runs[0]['steps'], runs[0]['default_calls']), 'observed': obs[:1]})
+            rep.sample({'stage': 'sln_system', 'script': sys_script(runs[0]['steps'], runs[0]['default_calls'], runs[0].get('copies')), 'observed': obs[:1]})
         if fail:
             bad += 1
             k = int(re.match(r'run (\d+)', fail).group(1))
             rep.fail('msbuild backend, real configure: ' + fail,
                      {'sys_history': runs, 'observed': obs, 'failing_run': k,
-                      'script_of_failing_run': sys_script(runs[k]['steps'], runs[k]['default_calls'])}, classes=())
+                      'script_of_failing_run': sys_script(runs[k]['steps'], runs[k]['default_calls'], runs[k].get('copies'))}, classes=())
     rep.stage('oracle:msbuild configure/regenerate', histories=n_hist, failures=bad)
     return bad
 
